@@ -80,11 +80,22 @@ def check(an: Analysis) -> None:
     rets = [n for n in g.nodes if n.kind == "return"]
     if not rets:
         ob.fail(call, None, f"{call.name} returns nothing")
+    from ..kinds import Scenario
+
+    dcall = Deps(prog, call)
+    stores = [n for n in g.nodes if n.kind == "stmt" and isinstance(n.ast, (ast.Assign, ast.AnnAssign)) and any(dotted(t) == f"{recv}._instance" for t in (n.ast.targets if isinstance(n.ast, ast.Assign) else [n.ast.target]))]
+    stored_origins = set()
+    for s_ in stores:
+        stored_origins |= set(dcall.origins(s_.ast.value))  # type: ignore[union-attr]
     for r in rets:
         ob.inst(call, r.ast)
-        if dotted(r.ast.value) != f"{recv}._instance":  # type: ignore[union-attr]
-            ob.fail(call, r.ast, "returns something else than the cached instance")
-    stores = [n for n in g.nodes if n.kind == "stmt" and isinstance(n.ast, (ast.Assign, ast.AnnAssign)) and any(dotted(t) == f"{recv}._instance" for t in (n.ast.targets if isinstance(n.ast, ast.Assign) else [n.ast.target]))]
+        v = r.ast.value  # type: ignore[union-attr]
+        oo = set(dcall.origins(v)) if v is not None else set()
+        if dotted(v) == f"{recv}._instance":
+            continue
+        if oo and oo <= ({f"attr:{recv}._instance"} | stored_origins):
+            continue
+        ob.fail(call, r.ast, "returns something else than the cached instance")
     for s_ in stores:
         ob.inst(call, s_.ast, "store")
 
@@ -93,8 +104,9 @@ def check(an: Analysis) -> None:
                 return _OBJ  # already created (and, being Missing, falsy)
             return NOVALUE
 
-        w = g.search([g.entry], lambda n, s_=s_: n is s_, skip_edge=scenario(g, env))
-        if w is not None:
+        sc = Scenario(g, dcall, env)
+        if s_.id in sc.reach:
+            w = g.search([g.entry], lambda n, s_=s_: n is s_, skip_edge=sc.skip)
             ob.fail(call, s_.ast, "the cached instance can be replaced after it was created (note: the instance is falsy - a truthiness test does not detect it)", CFG.show_path(w))
     owners = {cls.qualname} | ({meta.qualname} if meta is not None else set())
     for fi in prog.scan_functions():
@@ -252,8 +264,16 @@ def check(an: Analysis) -> None:
         rr = [n for n in gw.nodes if n.kind == "return" and n.id in reach]
         if not rr:
             ob.fail(wm, None, f"when_missing has no return when the checked value {'is' if is_m else 'is not'} MISSING")
+        from ..kinds import eval_expr as _ev
+
         for r in rr:
-            if not is_name(unwrap(r.ast.value), want):  # type: ignore[union-attr]
+            val = r.ast.value  # type: ignore[union-attr]
+            while isinstance(unwrap(val), ast.IfExp):
+                t = _ev(unwrap(val).test, env_w(is_m))
+                if t is NOVALUE:
+                    break
+                val = unwrap(val).body if t else unwrap(val).orelse
+            if not is_name(unwrap(val), want):
                 ob.fail(wm, r.ast, f"when_missing returns `{stmt_text(r.ast.value)}` instead of `{want}` when the checked value {'is' if is_m else 'is not'} MISSING")  # type: ignore[union-attr]
     # the Missing validator accepts exactly MISSING
     val = prog.fn_opt("state.validation._prepare_validator_of_missing.validator")
@@ -262,11 +282,16 @@ def check(an: Analysis) -> None:
     gv = an.cfg(val)
     vp = val.param_names()[0]
 
+    dval = Deps(prog, val)
+
+    def is_value(x: ast.AST) -> bool:
+        return is_name(x, vp) or (isinstance(x, ast.Name) and dval.origins(x) == {f"param:{vp}"})
+
     def env_v(is_m: bool):
         def env(e: ast.AST):
             if isinstance(e, ast.Compare) and len(e.ops) == 1 and isinstance(e.ops[0], (ast.Is, ast.IsNot)):
                 ops = [e.left, e.comparators[0]]
-                if any(is_name(x, vp) for x in ops) and any(_is_missing(an, val.module, val, x) for x in ops):
+                if any(is_value(x) for x in ops) and any(_is_missing(an, val.module, val, x) for x in ops):
                     return is_m if isinstance(e.ops[0], ast.Is) else (not is_m)
             return NOVALUE
 
